@@ -267,8 +267,17 @@ def struct_fmt(fmt: str):
     return "[" + "; ".join(items) + "]"
 
 
-# sha1 of inspect.getsource(FastObjectUpdateCompressedDataDeserializer.read) at the time fast_read was transcribed
-TRANSCRIBED_READ_SHA1 = "5d43b47ac65e98ee45e90a1932decc82fe212e18"
+# fast_read (Compressed/Model.v) is a hand transcription of exactly this text: the whole classes
+# FastObjectUpdateCompressedDataDeserializer (read() and its struct constants) and SimpleStructReader (read_struct,
+# read_bytes_null_term - the helpers read() calls).  sha1 of their sources at the time of transcription; any other
+# text makes the check fail closed (harness/props/c13.py: generate) until the transcription has been re-done.
+TRANSCRIBED_SOURCES_SHA1 = ("2b897455297828745ac3f6cb338a11c91d4c228b",)
+
+
+def fast_sources_sha1():
+    from hippolyzer.lib.base import objects
+    txt = inspect.getsource(objects.SimpleStructReader) + "\n" + inspect.getsource(objects.FastObjectUpdateCompressedDataDeserializer)
+    return hashlib.sha1(txt.encode()).hexdigest()
 
 
 def generate(coq_dir: str):
@@ -351,7 +360,7 @@ def generate(coq_dir: str):
     if old != txt:
         with open(path, "w") as f:
             f.write(txt)
-    src_sha = hashlib.sha1(inspect.getsource(F.read).encode()).hexdigest()
+    src_sha = fast_sources_sha1()
     return {
         "fields": fields,
         "n_fields": len(fields),
@@ -359,6 +368,6 @@ def generate(coq_dir: str):
         "opaque": dict(w.names),
         "sub_ids": sorted(w.shapes),
         "read_sha1": src_sha,
-        "read_sha1_matches_transcription": src_sha == TRANSCRIBED_READ_SHA1,
+        "read_sha1_matches_transcription": src_sha in TRANSCRIBED_SOURCES_SHA1,
         "path": path,
     }
